@@ -36,7 +36,9 @@ QUICK = [
 ]
 THOROUGH = [
     ({"L": 3, "MaxP": 3, "MaxSO": 2, "NBuf": 1, "NTexts": 2, "SOKinds": 2, "NParts": 4}, "3 cells (4 types), <=3 patches, <=2 source-only slices, one variant"),
-    ({"L": 3, "MaxP": 2, "MaxSO": 2, "NBuf": 2, "NTexts": 3, "SOKinds": 1, "NParts": 2}, "3 cells, <=2 patches over two variant buffers, three texts, <=2 source-only slices"),
+    # NB kSubset (FiniteSetsExt) needs a base set of <= 62 elements: keep |Dom| below that
+    ({"L": 3, "MaxP": 2, "MaxSO": 2, "NBuf": 2, "NTexts": 2, "SOKinds": 2, "NParts": 2}, "3 cells (4 types), <=2 patches over two variant buffers, <=2 source-only slices"),
+    ({"L": 2, "MaxP": 2, "MaxSO": 2, "NBuf": 2, "NTexts": 3, "SOKinds": 2, "NParts": 1}, "2 cells (4 types), <=2 patches over two variant buffers, three texts"),
     ({"L": 4, "MaxP": 2, "MaxSO": 2, "NBuf": 1, "NTexts": 2, "SOKinds": 1, "NParts": 2}, "4 cells, <=2 patches, <=2 source-only slices, one variant"),
 ]
 COHERENCE = {"L": 2, "MaxP": 3, "MaxSO": 2, "NBuf": 1, "NTexts": 2, "SOKinds": 1, "NParts": 1, "Part": 0, "EmitOn": False}
